@@ -110,7 +110,8 @@ class BuiltinRef:
 
 
 EXC_CLASSES = {'Exception', 'ValueError', 'TypeError', 'IndexError', 'KeyError', 'ZeroDivisionError',
-               'AssertionError', 'AttributeError', 'RuntimeError', 'NotImplementedError'}
+               'AssertionError', 'AttributeError', 'RuntimeError', 'NotImplementedError', 'BaseException', 'KeyboardInterrupt',
+               'SystemExit', 'LookupError', 'ArithmeticError', 'NameError', 'GeneratorExit'}
 
 BUILTINS = {'len', 'int', 'float', 'str', 'bool', 'isinstance', 'range', 'enumerate', 'list', 'tuple', 'dict',
             'set', 'getattr', 'setattr', 'hasattr', 'max', 'min', 'abs', 'zip', 'sum', 'any', 'all', 'type',
@@ -433,13 +434,18 @@ class Ctx:
             self.obligations.append(ob)
 
     def safe(self, what, cond, exc='Exception'):
-        """a partial operation: on this path it must be safe (obligation), then assumed."""
+        """a partial operation: on this path it must be safe (obligation), then assumed -- unless an enclosing `try` of the code
+        catches this very exception: then failing is ordinary control flow and the path forks."""
         if isinstance(cond, bool):
             if cond:
                 return
             cond = z3.BoolVal(False)
         cond = z3.simplify(cond)
         if z3.is_true(cond):
+            return
+        if any(exc_matches(exc, caught) for caught in getattr(self, 'try_stack', ())):
+            if self.branch(z3.Not(cond)):
+                raise PyRaise(exc, f'caught partial operation {what}')
             return
         self.oblige(f'safe.{what}', cond)
         self.pc.append(cond)
@@ -451,6 +457,32 @@ class Ctx:
 # ---------------------------------------------------------------------------------------------
 # the interpreter
 # ---------------------------------------------------------------------------------------------
+
+#: exception class -> its bases (only what the repository's except clauses and the modelled partial operations need)
+EXC_BASES = {'BaseException': (), 'Exception': ('BaseException',), 'KeyboardInterrupt': ('BaseException',), 'SystemExit': ('BaseException',),
+             'GeneratorExit': ('BaseException',), 'ArithmeticError': ('Exception',), 'LookupError': ('Exception',),
+             'ZeroDivisionError': ('ArithmeticError',), 'IndexError': ('LookupError',), 'KeyError': ('LookupError',),
+             'ValueError': ('Exception',), 'TypeError': ('Exception',), 'AttributeError': ('Exception',), 'NameError': ('Exception',),
+             'RuntimeError': ('Exception',), 'AssertionError': ('Exception',), 'AmpycloudError': ('Exception',), 'Warning': ('Exception',),
+             'AmpycloudWarning': ('Warning',)}
+
+
+def exc_matches(exc, caught_names):
+    """would `except <caught_names>` catch an exception of class exc?"""
+    seen, todo = set(), [exc.rsplit('.', 1)[-1]]
+    while todo:
+        e = todo.pop()
+        if e in seen:
+            continue
+        seen.add(e)
+        if e in caught_names:
+            return True
+        if e not in EXC_BASES:
+            todo.append('Exception')       # unknown classes are ordinary exceptions
+        else:
+            todo.extend(EXC_BASES[e])
+    return False
+
 
 class Frame:
     def __init__(self, fi: source.FuncInfo, env: dict):
@@ -709,7 +741,10 @@ class Interp:
 
     def stmt_Raise(self, s, fr):
         if s.exc is None:
-            raise Unsupported('bare raise')
+            cur = getattr(fr, 'handling', None)
+            if cur is None:
+                raise Unsupported('bare raise outside an except block')
+            raise cur
         e = s.exc
         if isinstance(e, ast.Call):
             cls = self.eval(e.func, fr)
@@ -727,11 +762,52 @@ class Interp:
         self.ctx.oblige('assert.line_in_body', t)
         self.ctx.assume(t)
 
+    def _handler_names(self, h, fr):
+        if h.type is None:
+            return ('BaseException',)
+        ts = h.type.elts if isinstance(h.type, ast.Tuple) else [h.type]
+        out = []
+        for t in ts:
+            cls = self.eval(t, fr)
+            nm = cls.name if isinstance(cls, (RepoClassRef, BuiltinRef)) else None
+            if nm is None:
+                raise Unsupported(f'except clause for {cls!r}')
+            out.append(nm.rsplit('.', 1)[-1])
+        return tuple(out)
+
     def stmt_Try(self, s, fr):
-        if s.handlers or s.orelse:
-            raise Unsupported('try/except')
+        ctx = self.ctx
+        if not hasattr(ctx, 'try_stack'):
+            ctx.try_stack = []
+        caught = [self._handler_names(h, fr) for h in s.handlers]
         try:
-            self.exec_block(s.body, fr)
+            if s.handlers:
+                ctx.try_stack.append(tuple(n for hn in caught for n in hn))
+            try:
+                try:
+                    self.exec_block(s.body, fr)
+                finally:
+                    if s.handlers:
+                        ctx.try_stack.pop()
+            except PyRaise as r:
+                kind = r.exc
+                if kind == 'BodyException':      # raised by the body of a with statement: any exception class
+                    kind = 'Exception' if ctx.ghost.get('body_exc_is_Exception', True) else 'BaseException'
+                for h, names in zip(s.handlers, caught):
+                    if any(exc_matches(kind, (n,)) for n in names):
+                        if h.name:
+                            fr.env[h.name] = Opaque('exception object')
+                        prev = getattr(fr, 'handling', None)
+                        fr.handling = r
+                        try:
+                            self.exec_block(h.body, fr)
+                        finally:
+                            fr.handling = prev
+                        break
+                else:
+                    raise
+            else:
+                self.exec_block(s.orelse, fr)
         finally:
             # NB: Python semantics -- finalbody runs on every exit (normal, return, raise, break)
             self.exec_block(s.finalbody, fr)
@@ -1234,8 +1310,11 @@ class Interp:
         from .lib import RngState, rng_now
         rng_now(self.ctx)
         self.ctx.ghost['RNG'] = fresh('RNG_after_body', RngState)
-        if self.ctx.choose('with-body', ['returns', 'raises']) == 'raises':
+        how = self.ctx.choose('with-body', ['returns', 'raises', 'raises-non-Exception'])
+        if how != 'returns':
+            # the body may raise anything: an ordinary Exception, or a BaseException that is not one (KeyboardInterrupt, SystemExit, ...)
             self.ctx.ghost['body_raises'] = True
+            self.ctx.ghost['body_exc_is_Exception'] = (how == 'raises')
             raise PyRaise('BodyException', 'raised by the body of the with statement')
         self.ctx.ghost['body_raises'] = False
         return None
